@@ -969,3 +969,224 @@ Qed.
 (* without the guard the very first statement after the allocation writes outside the buffer *)
 Example algA_n0_out_of_bounds : forall gt ld F, algA F gt ld 0 5 = OutOfBounds.
 Proof. reflexivity. Qed.
+
+(* ================================================================= algD (partial: termination for
+   every oracle stream in which an accepting draw eventually occurs) *)
+Section AlgDP.
+  Variable draw : nat -> Z * bool * bool.
+
+  Definition dS (k : nat) : Z := fst (fst (draw k)).
+  Definition dB1 (k : nat) : bool := snd (fst (draw k)).
+  Definition dB2 (k : nat) : bool := snd (draw k).
+
+  (* draw k proposes a candidate S < qu1 that one of the two acceptance tests lets through *)
+  Definition accepting (qu1 : Z) (k : nat) : bool := (dS k <? qu1) && (dB1 k || dB2 k).
+
+  Lemma draw_eta k : draw k = (dS k, dB1 k, dB2 k).
+  Proof. unfold dS, dB1, dB2. destruct (draw k) as [[a b] c]. reflexivity. Qed.
+
+  (* ---- results other than OutOfFuel do not depend on the fuel *)
+  Lemma tloop_mono fuel fuel' t limit bottom r :
+    algD_tloop fuel t limit bottom = r -> r <> OutOfFuel -> (fuel <= fuel')%nat ->
+    algD_tloop fuel' t limit bottom = r.
+  Proof.
+    revert fuel' t bottom. induction fuel as [|f IH]; intros fuel' t bottom E Hr Hle; [cbn in E; congruence|].
+    destruct fuel' as [|f']; [lia|]. cbn [algD_tloop] in *.
+    destruct (limit <=? t); [|assumption]. destruct (bottom =? 0); [assumption|].
+    apply IH; [assumption|assumption|lia].
+  Qed.
+
+  Lemma draw_mono fuel fuel' qu1 k r :
+    algD_draw draw fuel qu1 k = r -> r <> OutOfFuel -> (fuel <= fuel')%nat ->
+    algD_draw draw fuel' qu1 k = r.
+  Proof.
+    revert fuel' k. induction fuel as [|f IH]; intros fuel' k E Hr Hle; [cbn in E; congruence|].
+    destruct fuel' as [|f']; [lia|]. cbn [algD_draw] in *.
+    destruct (draw k) as [[s b1] b2]. destruct (s <? qu1); [assumption|].
+    apply IH; [assumption|assumption|lia].
+  Qed.
+
+  Lemma reject_mono fuel fuel' F F' n N qu1 k r :
+    algD_reject F draw fuel n N qu1 k = r -> r <> OutOfFuel -> (fuel <= fuel')%nat -> (F <= F')%nat ->
+    algD_reject F' draw fuel' n N qu1 k = r.
+  Proof.
+    revert fuel' k. induction fuel as [|f IH]; intros fuel' k E Hr Hle HF; [cbn in E; congruence|].
+    destruct fuel' as [|f']; [lia|]. cbn [algD_reject] in *.
+    destruct (algD_draw draw F qu1 k) as [[[[s b1] b2] k1]| | |] eqn:Ed; cbn [kbind] in E.
+    - rewrite (draw_mono F F' qu1 k _ Ed ltac:(discriminate) HF). cbn [kbind].
+      destruct (qu1 - s =? 0); [assumption|]. destruct b1; [assumption|].
+      destruct (if s <? n - 1 then (N - n, N - s) else (N - s - 1, qu1)) as [bottom limit].
+      destruct (algD_tloop F (N - 1) limit bottom) as [[]| | |] eqn:Et; cbn [kbind] in E.
+      + rewrite (tloop_mono F F' _ _ _ _ Et ltac:(discriminate) HF). cbn [kbind].
+        destruct b2; [assumption|]. apply IH; [assumption|assumption|lia|assumption].
+      + congruence.
+      + rewrite (tloop_mono F F' _ _ _ _ Et ltac:(discriminate) HF). assumption.
+      + rewrite (tloop_mono F F' _ _ _ _ Et ltac:(discriminate) HF). assumption.
+    - congruence.
+    - rewrite (draw_mono F F' qu1 k _ Ed ltac:(discriminate) HF). assumption.
+    - rewrite (draw_mono F F' qu1 k _ Ed ltac:(discriminate) HF). assumption.
+  Qed.
+
+  (* ---- each loop, given enough fuel *)
+  Lemma tloop_nofuel fuel t limit bottom :
+    Z.max 0 (t - limit + 1) < Z.of_nat fuel -> algD_tloop fuel t limit bottom <> OutOfFuel.
+  Proof.
+    revert t bottom. induction fuel as [|f IH]; intros t bottom Hf; [lia|].
+    cbn [algD_tloop]. destruct (Z.leb_spec limit t); [|discriminate].
+    destruct (bottom =? 0); [discriminate|]. apply IH. lia.
+  Qed.
+
+  Lemma draw_ok j : forall fuel qu1 k,
+    (dS (k + j) <? qu1) = true -> (j < fuel)%nat ->
+    exists k1, (k <= k1 <= k + j)%nat /\ (dS k1 <? qu1) = true /\
+               algD_draw draw fuel qu1 k = Done (dS k1, dB1 k1, dB2 k1, S k1).
+  Proof.
+    induction j as [|j IH]; intros fuel qu1 k Hacc Hf; (destruct fuel as [|f]; [lia|]); cbn [algD_draw];
+      rewrite (draw_eta k).
+    - replace (k + 0)%nat with k in Hacc by lia. rewrite Hacc. exists k. repeat split; try lia; assumption.
+    - destruct (dS k <? qu1) eqn:E.
+      + exists k. repeat split; try lia; assumption.
+      + replace (k + S j)%nat with (S k + j)%nat in Hacc by lia.
+        destruct (IH f qu1 (S k) Hacc ltac:(lia)) as [k1 [H1 [H2 H3]]].
+        exists k1. repeat split; try lia; assumption.
+  Qed.
+
+  Lemma reject_ok j : forall fuel F n N qu1 k,
+    accepting qu1 (k + j) = true -> (j < fuel)%nat -> (j < F)%nat -> 0 < qu1 <= N -> N < Z.of_nat F ->
+    (forall i, 0 <= dS i) ->
+    algD_reject F draw fuel n N qu1 k <> OutOfFuel /\
+    forall s k', algD_reject F draw fuel n N qu1 k = Done (s, k') -> 0 <= s < qu1.
+  Proof.
+    induction j as [j IH] using lt_wf_ind. intros fuel F n N qu1 k Hacc Hf HF Hq HN Hpos.
+    destruct fuel as [|f]; [lia|]. cbn [algD_reject].
+    assert (Hlt : (dS (k + j) <? qu1) = true).
+    { unfold accepting in Hacc. apply andb_true_iff in Hacc. tauto. }
+    destruct (draw_ok j F qu1 k Hlt HF) as [k1 [Hk1 [Hs1 ->]]]. cbn [kbind].
+    pose proof (Hpos k1) as Hp1.
+    destruct (Z.eqb_spec (qu1 - dS k1) 0); [lia|].
+    destruct (dB1 k1) eqn:Eb1.
+    { split; [discriminate|]. intros s k' E. inversion E; subst. lia. }
+    destruct (if dS k1 <? n - 1 then (N - n, N - dS k1) else (N - dS k1 - 1, qu1)) as [bottom limit] eqn:Ebl.
+    assert (Ht : algD_tloop F (N - 1) limit bottom <> OutOfFuel).
+    { apply tloop_nofuel. destruct (dS k1 <? n - 1); inversion Ebl; subst; lia. }
+    destruct (algD_tloop F (N - 1) limit bottom) as [[]| | |]; cbn [kbind]; try congruence;
+      try (split; [discriminate|intros; discriminate]).
+    destruct (dB2 k1) eqn:Eb2.
+    { split; [discriminate|]. intros s k' E. inversion E; subst. lia. }
+    (* rejected: k1 is not the accepting draw, so it lies strictly before k + j *)
+    assert (k1 <> k + j)%nat.
+    { intros ->. unfold accepting in Hacc. rewrite Eb1, Eb2 in Hacc. rewrite andb_false_r in Hacc. discriminate. }
+    apply (IH (k + j - S k1)%nat ltac:(lia) f F n N qu1 (S k1)); try assumption; try lia.
+    replace (S k1 + (k + j - S k1))%nat with (k + j)%nat by lia. assumption.
+  Qed.
+
+  Hypothesis Hpos : forall i, 0 <= dS i.
+  Hypothesis Hev : forall qu1 k, 0 < qu1 -> exists j, accepting qu1 (k + j)%nat = true.
+
+  (* m = number of elements still to be selected *)
+  Lemma outer_ok m : forall n N qu1 i arr k,
+    n = Z.of_nat m + 1 -> qu1 = N - n + 1 -> 0 < qu1 -> 0 <= i -> i + n - 1 = zlen arr ->
+    exists B : nat, forall F fuel, (B <= F)%nat -> (m < fuel)%nat ->
+      algD_outer F draw fuel n N qu1 i arr k <> OutOfFuel.
+  Proof.
+    induction m as [|m IH]; intros n N qu1 i arr k Hn Hq Hq0 Hi Hlen.
+    - exists O. intros F fuel _ Hf. destruct fuel as [|f]; [lia|]. cbn [algD_outer].
+      destruct (Z.ltb_spec 1 n); [lia|discriminate].
+    - destruct (Hev qu1 k Hq0) as [j Hj].
+      set (F1 := S (Nat.max j (Z.to_nat N))).
+      destruct (reject_ok j F1 F1 n N qu1 k Hj ltac:(lia) ltac:(lia) ltac:(lia) ltac:(lia) Hpos) as [Hr1 Hr2].
+      destruct (algD_reject F1 draw F1 n N qu1 k) as [[s k']| | |] eqn:Er; try congruence.
+      + specialize (Hr2 s k' eq_refl).
+        assert (Hrd : exists p, rd arr (i - 1) = Done p) by (apply rd_wrap_ok; lia).
+        destruct Hrd as [p Hp].
+        destruct (wr_ok arr i (p + s + 1) ltac:(lia)) as [arr' [Hw Hl]].
+        destruct (IH (n - 1) (N - s - 1) (qu1 - s) (i + 1) arr' k' ltac:(lia) ltac:(lia) ltac:(lia) ltac:(lia)
+                     ltac:(unfold zlen in *; lia)) as [B HB].
+        exists (Nat.max F1 B). intros F fuel HF Hf. destruct fuel as [|f]; [lia|]. cbn [algD_outer].
+        destruct (Z.ltb_spec 1 n); [|discriminate].
+        rewrite (reject_mono F1 F F1 F n N qu1 k _ Er ltac:(discriminate) ltac:(lia) ltac:(lia)). cbn [kbind].
+        rewrite Hp. cbn [kbind]. rewrite Hw. cbn [kbind]. apply HB; lia.
+      + exists F1. intros F fuel HF Hf. destruct fuel as [|f]; [lia|]. cbn [algD_outer].
+        destruct (Z.ltb_spec 1 n); [|discriminate].
+        rewrite (reject_mono F1 F F1 F n N qu1 k _ Er ltac:(discriminate) ltac:(lia) ltac:(lia)). discriminate.
+      + exists F1. intros F fuel HF Hf. destruct fuel as [|f]; [lia|]. cbn [algD_outer].
+        destruct (Z.ltb_spec 1 n); [|discriminate].
+        rewrite (reject_mono F1 F F1 F n N qu1 k _ Er ltac:(discriminate) ltac:(lia) ltac:(lia)). discriminate.
+  Qed.
+
+  Theorem algD_terminates_partial_proof :
+    forall n0 N : Z, 1 <= n0 < N ->
+    exists B : nat, forall F : nat, (B <= F)%nat -> algD F draw n0 N <> OutOfFuel.
+  Proof.
+    intros n0 N Hn. unfold algD.
+    assert (Hz : zlen (repeat 0 (Z.to_nat (n0 + 1 - 1))) = n0) by (unfold zlen; rewrite repeat_length; lia).
+    destruct (wr_last_ok (repeat 0 (Z.to_nat (n0 + 1 - 1))) (-1) ltac:(lia)) as [arr [Hw Hl]].
+    destruct (outer_ok (Z.to_nat n0) (n0 + 1) N (N - (n0 + 1) + 1) 0 arr 0%nat ltac:(lia) eq_refl ltac:(lia) ltac:(lia)
+                ltac:(unfold zlen in *; lia)) as [B HB].
+    exists (Nat.max B (S (Z.to_nat n0))). intros F HF. rewrite Hw. cbn [kbind]. apply HB; lia.
+  Qed.
+End AlgDP.
+
+(* ================================================================= non-vacuity: the hypotheses of the
+   theorems above are met by non-trivial values, and the kernels compute what the code computes *)
+Example dot_coo_ndarray_example :
+  (* [[0,2,0],[3,0,4]] @ [[1,0],[0,1],[2,2]]  (array2 is the transposed second operand) *)
+  dot_coo_ndarray [0; 1; 1] [1; 0; 2] [2; 3; 4] [[1; 0; 2]; [0; 1; 2]] 2 2 4 = Done [[0; 2]; [11; 8]] /\
+  dot_coo_ndarray_sparse [0; 1; 1] [1; 0; 2] [2; 3; 4] [[1; 0; 2]; [0; 1; 2]] 2 6 = Done [(0, 1, 2); (1, 0, 11); (1, 1, 8)] /\
+  (* no output column (the former D3): returns at once *)
+  dot_coo_ndarray [0; 1; 1] [1; 0; 2] [2; 3; 4] [] 2 0 4 = Done [[]; []] /\
+  dot_coo_ndarray_sparse [0; 1; 1] [1; 0; 2] [2; 3; 4] [] 0 4 = Done [] /\
+  mat_ok 2 3 [[1; 0; 2]; [0; 1; 2]] /\ Forall (fun r => 0 <= r < 2) [0; 1; 1] /\ Forall (fun c => 0 <= c < 3) [1; 0; 2].
+Proof. repeat split; try reflexivity; repeat constructor; cbn; lia. Qed.
+
+Example dot_ndarray_coo_example :
+  dot_ndarray_coo [[1; 2]; [0; 3]] [0; 1] [1; 0] [5; 7] 2 2 = Done [[14; 5]; [21; 0]] /\
+  dot_ndarray_coo_sparse [[1; 2]; [0; 3]] [0; 1] [1; 0] [5; 7] 2 = Done [(0, 0, 10); (0, 1, 7); (1, 0, 15)].
+Proof. split; reflexivity. Qed.
+
+Lemma sorted_le_135 : sorted_le [1; 3; 5].
+Proof.
+  intros i j Hi Hij Hj. unfold zlen in Hj. cbn in Hj. unfold znth.
+  assert (Hi' : i = 0 \/ i = 1 \/ i = 2) by lia. assert (Hj' : j = 0 \/ j = 1 \/ j = 2) by lia.
+  destruct Hi' as [-> | [-> | ->]]; destruct Hj' as [-> | [-> | ->]]; try lia;
+    change (Z.to_nat 0) with 0%nat; change (Z.to_nat 1) with 1%nat; change (Z.to_nat 2) with 2%nat; cbn [nth]; lia.
+Qed.
+
+Lemma strict_incr_35 : strict_incr [3; 5].
+Proof.
+  intros i j Hi Hij Hj. unfold zlen in Hj. cbn in Hj. unfold znth.
+  assert (i = 0) by lia. assert (j = 1) by lia. subst.
+  change (Z.to_nat 0) with 0%nat; change (Z.to_nat 1) with 1%nat; cbn [nth]; lia.
+Qed.
+
+Example slicing_selection_example :
+  sorted_le [1; 3; 5] /\ strict_incr [3; 5] /\
+  slicing_selection_row [1; 3; 5] [3; 5] 10 6 = Done [(11, 0); (12, 1)] /\          (* binary-search branch *)
+  slicing_selection_row [3] [1; 3; 5] 4 5 = Done [(4, 1)].                            (* linear branch *)
+Proof. repeat split; try reflexivity; [apply sorted_le_135|apply strict_incr_35]. Qed.
+
+Example match_arrays_example : match_arrays [1; 2; 2; 5] 5 [0; 2; 2; 5] = Done [(1, 1); (1, 2); (2, 1); (2, 2); (3, 3)].
+Proof. reflexivity. Qed.
+
+Example compute_mask_narrow_example :
+  compute_mask_narrow 5 (fun i => Nat.eqb i 1) 4 [[0; 0; 1; 1]; [0; 1; 0; 1]] [[1]; [0; 1]] = Done (1%nat, [(2, 4)]) /\
+  compute_mask_narrow 5 (fun _ => false) 4 [[0; 0; 1; 1]; [0; 1; 0; 1]] [[1]; [1]] = Done (2%nat, [(3, 4)]).
+Proof. split; reflexivity. Qed.
+
+Example algA_example :
+  algA 11 (fun k => Nat.eqb k 0) 4 3 10 = Done [1; 2; 7].
+Proof. reflexivity. Qed.
+
+(* a stream that satisfies both hypotheses of algD_terminates_partial, and one that rejects twice first *)
+Example algD_example :
+  (forall i, 0 <= dS (fun _ => (0, true, true)) i) /\
+  (forall qu1 k, 0 < qu1 -> accepting (fun _ => (0, true, true)) qu1 (k + 0) = true) /\
+  algD 4 (fun _ => (0, true, true)) 2 30 = Done [0; 1] /\
+  algD 6 (fun k => if Nat.ltb k 2 then (50, false, false) else (3, false, true)) 2 30 = Done [3; 7].
+Proof.
+  split; [intros; cbn; lia|]. split; [|split; reflexivity].
+  intros qu1 k H. unfold accepting, dS, dB1, dB2. cbn. destruct (Z.ltb_spec 0 qu1); [reflexivity|lia].
+Qed.
+
+Example sort_coo_scan_example : sort_coo_scan [0; 0; 2; 2; 2; 5] = Done [(0, 2); (2, 5); (5, 6)].
+Proof. reflexivity. Qed.
